@@ -2117,6 +2117,11 @@ def eval_config_session(ctx):
         run("set z 0, then set z no: the file holds", lambda: (do("set", c3, "z", "0"), do("set", c3, "z", "no"), stored("z"))[2], "False")
         run("set z no, then set z 0: the file holds", lambda: (do("set", c3, "z", "0"), stored("z"))[1], "0")
         run("setting a key to the value it already has keeps it", lambda: (do("set", c3, "z", "0"), stored("z"))[1], "0")
+        # the switches gwf itself reads (their names may get special treatment): what is stored is the boolean, and the hash store follows it
+        for key_ in ("use_spec_hashes", "clean_logs", "no_color"):
+            run(f"set {key_} no: the file holds", lambda key_=key_: (do("set", c3, key_, "no"), stored(key_))[1], "False")
+            run(f"set {key_} yes: the file holds", lambda key_=key_: (do("set", c3, key_, "yes"), stored(key_))[1], "True")
+            run(f"set {key_} false: the file holds", lambda key_=key_: (do("set", c3, key_, "false"), stored(key_))[1], "False")
     except (Raised, Unsupported) as exc:
         steps.append(("third invocation loads the file", f"<{type(exc).__name__}: {exc}>", "loads what the second one saved"))
     return steps
